@@ -192,6 +192,9 @@ def verify_function(contract: Contract, specs=None, variant=None) -> FunctionRep
             st.vars["__ghost_" + gname] = gv
             st.vars[gname] = gv
             rep.assumptions.append(f"{contract.qual}: `{_src}` yields exactly the sequence `{gname}` (assumed dependency contract)")
+        for _n, _slot in st.vars.items():
+            if isinstance(_slot, Val) and _slot.tag == "any":
+                st.assume(_slot.e != sym.ABSENT)  # `absent` encodes a missing dict entry; it is never the value of a variable
         params_bound = dict(st.vars)
         ex.params_bound = params_bound
         for cl in contract.requires_:
